@@ -926,6 +926,13 @@ def wake_protocol(ctx, rule="R07.4"):
                 okp = okp and any(t.callee.is_("core::task::wake::Waker::will_wake") for t in ww)
         ctx.require(okp, rule, "poll-registers-own-waker", "inside the critical section the task's waker is stored unless an equivalent one already is",
                     p.loc(p.line), fail="Flag::poll does not reliably store the polling task's waker")
+    # polling never unregisters anybody: the list only ever shrinks in raise()
+    REMOVERS = ("Vec::retain", "Vec::retain_mut", "Vec::clear", "Vec::truncate", "Vec::remove", "Vec::swap_remove", "Vec::pop", "Vec::drain", "Vec::split_off",
+                "Vec::dedup", "Vec::dedup_by", "Vec::dedup_by_key", "Vec::extract_if", "core::mem::take", "core::mem::replace", "core::mem::swap")
+    rem = sorted({strip_generics(t.callee.def_ or repr(t.callee)) for g in [p] + ctx.facts.descendants(p) for _, t in g.calls()
+                  if any(t.callee.is_(r) for r in REMOVERS)})
+    ctx.require(not rem, rule, "poll-keeps-other-waiters", "Flag::poll never removes a registered waker (any number of tasks may wait on one flag)", p.loc(p.line),
+                detail=str(rem), fail="Flag::poll removes registered wakers (%s): tasks waiting on the same flag are never woken by raise()" % rem)
     loads = [(bi, t) for bi, t in p.calls() if t.callee.is_("core::sync::atomic::Atomic::load", "AtomicBool::load")]
     ctx.floor(rule, "waker registration in Flag::poll", len(regs), 1)
     ctx.floor(rule, "flag loads in Flag::poll", len(loads), 2)
